@@ -180,4 +180,67 @@ example : okIs ((load demo).bind (fun m => downgradeRevs m ["d", "e"] "a")) ["d"
 example : okIs ((load demo).bind (fun m => downgradeRevs m ["d", "e"] "lbl@base")) ["d", "b", "e", "c", "a"] = true := by
   decide +kernel
 
+/-! ### the oracle `Spec.Rev.downgradeOk`, evaluated on the implementation's plans -/
+
+theorem childrenFirst_spec (h : Hist) (applied : List Id) : ∀ (plan done : List Id),
+    childrenFirst h applied done plan = true →
+    ∀ pre x post, plan = pre ++ x :: post → ∀ c ∈ children h x, c ∈ applied → c ∈ done ∨ c ∈ pre := by
+  intro plan
+  induction plan with
+  | nil => intro done _ pre x post e; cases pre <;> simp at e
+  | cons y rest ih =>
+    intro done hok pre x post e c hc hca
+    simp only [childrenFirst, Bool.and_eq_true, List.all_eq_true, Bool.or_eq_true, Bool.not_eq_true',
+      decide_eq_false_iff_not, decide_eq_true_eq] at hok
+    cases pre with
+    | nil =>
+      simp only [List.nil_append, List.cons.injEq] at e
+      obtain ⟨e1, _⟩ := e
+      subst e1
+      rcases hok.1 c hc with h1 | h1
+      · exact absurd hca h1
+      · exact Or.inl h1
+    | cons p pre' =>
+      simp only [List.cons_append, List.cons.injEq] at e
+      obtain ⟨e1, e2⟩ := e
+      subst e1
+      rcases ih (y :: done) hok.2 pre' x post e2 c hc hca with h1 | h1
+      · rcases List.mem_cons.mp h1 with h2 | h2
+        · exact Or.inr (h2 ▸ List.mem_cons_self)
+        · exact Or.inl h2
+      · exact Or.inr (List.mem_cons_of_mem _ h1)
+
+/-- **What a `true` verdict of the downgrade oracle means**: the plan is duplicate-free, holds
+exactly the applied revisions that descend from the revisions to be removed first, never the
+target or one of its ancestors, and removes every revision only after all applied revisions that
+name it as a prerequisite. -/
+theorem downgradeOk_sound (h : Hist) (hd : ∀ c ∈ ids h, ∀ p ∈ parents h c, p ∈ ids h)
+    (rows : List Id) (target branch : Option Id) (plan : List Id)
+    (hok : downgradeOk h rows target branch plan = true) :
+    plan.Nodup ∧
+    (∀ x, x ∈ plan ↔ IsDesc h (Spec.Rev.downgradeRoots h target branch) x ∧ IsAnc h rows x) ∧
+    (∀ pre x post, plan = pre ++ x :: post → ∀ c ∈ children h x, IsAnc h rows c → c ∈ pre) ∧
+    (∀ t, target = some t → ∀ a, IsAnc h [t] a → a ∉ plan) := by
+  unfold downgradeOk at hok
+  simp only [Bool.and_eq_true] at hok
+  obtain ⟨⟨⟨h1, h2⟩, h3⟩, h4⟩ := hok
+  unfold sameSet at h2
+  simp only [Bool.and_eq_true, List.all_eq_true, decide_eq_true_eq, List.mem_filter] at h2
+  refine ⟨(nodupB_iff _).mp h1, ?_, ?_, ?_⟩
+  · intro x
+    constructor
+    · intro hx
+      obtain ⟨a, b⟩ := h2.1 x hx
+      exact ⟨(mem_descSet_iff h hd _ x).mp a, (mem_ancSet_iff h rows x).mp b⟩
+    · rintro ⟨a, b⟩
+      exact h2.2 x ⟨(mem_descSet_iff h hd _ x).mpr a, (mem_ancSet_iff h rows x).mpr b⟩
+  · intro pre x post e c hc hca
+    rcases childrenFirst_spec h _ plan [] h3 pre x post e c hc ((mem_ancSet_iff h rows c).mpr hca) with h' | h'
+    · simp at h'
+    · exact h'
+  · intro t ht a ha hap
+    subst ht
+    simp only [Bool.and_eq_true, Bool.not_eq_true', decide_eq_false_iff_not, List.all_eq_true] at h4
+    exact h4.2 a ((mem_ancSet_iff h [t] a).mpr ha) hap
+
 end C02
